@@ -917,7 +917,10 @@ pub fn run_to_convergence(rep: &mut Report, run: &mut RingRun, prop: &str, want_
 /// fall apart again without that being a stability violation (aftermath of a disturbance).
 pub fn converge(rep: &mut Report, run: &mut RingRun, prop: &str, t_all_online: Us, bound: Us, grace_until: Us, want_rot: u64) -> Option<ConvResult> {
     let cfg = run.cfg.clone();
-    let step = (cfg.stations.len() as i64 * cfg.t_visit()).max(1000);
+    // estimated rotation time: with traffic applications a station may hold the token for up to TTR
+    let has_traffic = cfg.stations.iter().any(|s| s.app >= 2);
+    let ttr_max = cfg.stations.iter().map(|s| cfg.bits(s.ttr_bits as u64)).max().unwrap_or(0);
+    let step = (cfg.stations.len() as i64 * cfg.t_visit()).max(1000) + if has_traffic { ttr_max } else { 0 };
     let mut converged_at: Option<Us> = None;
     // start of the current window in which state samples and token flow were all proper
     let mut ok_since: Option<Us> = None;
